@@ -3163,12 +3163,15 @@ def phase_angle(sun_dist, earth_dist, sun_earth_dist):
     if not (isinstance(sun_dist, float) and isinstance(earth_dist, float)
             and isinstance(sun_earth_dist, float)):
         raise TypeError("Invalid input types")
-    cos_angle = ((sun_dist * sun_dist + earth_dist * earth_dist
-                  - sun_earth_dist * sun_earth_dist)
-                 / (2.0 * sun_dist * earth_dist))
-    # When the three bodies are aligned, rounding may push the cosine
-    # slightly beyond +/-1
-    if 1.0 < abs(cos_angle) < 1.0 + 1e-12:
+    num = (sun_dist * sun_dist + earth_dist * earth_dist
+           - sun_earth_dist * sun_earth_dist)
+    den = 2.0 * sun_dist * earth_dist
+    cos_angle = num / den
+    # When the three bodies are aligned, rounding of the squares may push the
+    # cosine slightly beyond +/-1
+    if abs(cos_angle) > 1.0 and abs(num) - den <= 1e-15 * (
+            sun_dist * sun_dist + earth_dist * earth_dist
+            + sun_earth_dist * sun_earth_dist):
         cos_angle = copysign(1.0, cos_angle)
     angle = acos(cos_angle)
     angle = Angle(angle, radians=True)
